@@ -401,6 +401,41 @@ theorem token_spent_then_declined_only_at_backstops (s : ServeFacts)
   · cases fc <;> simp at hd ht ⊢
     cases lim <;> cases la <;> cases lo <;> cases bu <;> cases cm <;> simp [commitStep] at hd ht ⊢
 
+/-- **One token per question across the inline pass and the worker replay.**
+With the real writer chain (a granted lease, a body that builds, no late
+`ErrWireFallback` — the commit-time backstops) an exact hit whose limiter
+allows costs exactly what it costs on the decoded ingress, whether the byte
+pass serves it (flat copy or alias composition) or declines at ANY of its
+gates — prefetch due, ineligible body, writer not ready, an uncollectable or
+oversized chase, a body that does not fit the chain — and the worker replays
+it: every such decline happens before the charge. -/
+theorem inline_replay_one_token (s : ServeFacts)
+    (hlease : s.leaseOK = true) (hbuilt : s.built = true) (hcommit : s.commit ≠ .fallback)
+    (hallow : s.limiterAllows = true) :
+    inlineReplayTokens s = decodedIngressTokens s := by
+  obtain ⟨iw, pf, el, wr, cs, cc, fc, la, lim, lo, bu, so, cm⟩ := s
+  simp only at hlease hbuilt hcommit hallow
+  subst hlease hbuilt hallow
+  simp only [inlineReplayTokens, decodedIngressTokens, serveHitFromWire, serveChaseHit, gate, charge, declineWith, droppedStep]
+  cases iw <;> cases pf <;> cases el <;> cases wr <;> cases cs <;> cases cc <;> cases fc <;> cases lim <;> cases so <;>
+    cases cm <;> simp_all [commitStep]
+
+-- non-vacuity: a limited alias entry whose composed reply is too large for the client: the inline pass
+-- declines without paying, the replay pays once
+example : inlineReplayTokens { chaseSafe := false, sizeOK := false, limited := true } = 1 ∧
+    (serveHitFromWire { chaseSafe := false, sizeOK := false, limited := true }).tokens = 0 := by decide
+
+/-- **A cut serves the same proof on both paths**: the signed authority
+section for a DO client and for an explicit RRSIG question, the bare SOA
+otherwise — for every qtype, NSEC and NSEC3 questions included. -/
+theorem cut_template_wire_eq_msg (clientDO : Bool) (qtype : Nat) :
+    cutWireFull clientDO qtype = cutMsgFull clientDO qtype := by
+  unfold cutWireFull cutMsgFull
+  cases clientDO <;> by_cases h : qtype = 46 <;> simp [h, bne]
+
+-- non-vacuity: an NSEC question with DO clear gets the stripped proof on both paths
+example : cutWireFull false 47 = false ∧ cutMsgFull false 47 = false ∧ cutWireFull false 46 = true := by decide
+
 /-- `udpEngine.serveInline`: a job is never both answered on the reader and replayed on a worker. -/
 theorem inline_terminal_rule (written handoff : Bool) :
     (inlineReplays written handoff = true → written = false) ∧
